@@ -170,6 +170,59 @@ pub fn adf_query(id: &str, qid: &str, q: &[String], adf: &mut Adf, _parser: &Adf
             .unwrap();
             *adf = new_adf;
         }
+        "panicflow" => {
+            // C11: a history with a call that panics and is caught.  Two copies of the object are imported; one is
+            // repaired at once (the reference), the other is asked q[1..] BEFORE the repair step (the missing
+            // bookkeeping makes the library panic in most cases), the panic is caught, the same object is repaired
+            // and asked again.  From then on it has to answer like the reference.
+            let s = serde_json::to_string(&*adf).unwrap();
+            let mut reference: Adf = serde_json::from_str(&s).unwrap();
+            reference.fix_import();
+            let mut imported: Adf = serde_json::from_str(&s).unwrap();
+            let attempt = std::panic::catch_unwind(std::panic::AssertUnwindSafe(|| {
+                let mut sink = String::new();
+                match q[1].as_str() {
+                    "grounded" => {
+                        imported.grounded();
+                    }
+                    "complete" => {
+                        let _: Vec<Vec<Term>> = imported.complete().collect();
+                    }
+                    "stable" => {
+                        let _: Vec<Vec<Term>> = imported.stable().collect();
+                    }
+                    "stablepre" => {
+                        let _: Vec<Vec<Term>> = imported.stable_with_prefilter().collect();
+                    }
+                    _ => adf_query(id, qid, &q[1..], &mut imported, _parser, &mut sink),
+                }
+            }));
+            imported.fix_import();
+            let answers = |a: &mut Adf| -> Vec<String> {
+                let g = a.grounded();
+                let c: Vec<Vec<Term>> = a.complete().collect();
+                let st: Vec<Vec<Term>> = a.stable().collect();
+                let ng: Vec<Vec<Term>> = a.stable_nogood(Heuristic::Simple).collect();
+                vec![
+                    format!("grounded {}", interp_string(&g)),
+                    format!("complete {}", interps_string(&c)),
+                    format!("stable {}", interps_string(&st)),
+                    format!("stmng {}", interps_string(&ng)),
+                    format!("acs {}", handles_string(&a.ac)),
+                ]
+            };
+            let want = answers(&mut reference);
+            let got = std::panic::catch_unwind(std::panic::AssertUnwindSafe(|| answers(&mut imported)));
+            let outcome = if attempt.is_err() { "panicked" } else { "returned" };
+            match got {
+                Ok(got) if got == want => writeln!(out, "{} {} panicflow same=1 outcome={}", id, qid, outcome).unwrap(),
+                Ok(got) => {
+                    let k = (0..want.len()).find(|i| got[*i] != want[*i]).unwrap();
+                    writeln!(out, "{} {} panicflow same=0 outcome={} got[{}] want[{}]", id, qid, outcome, got[k], want[k]).unwrap()
+                }
+                Err(_) => writeln!(out, "{} {} panicflow same=0 outcome={} the repaired object panics", id, qid, outcome).unwrap(),
+            }
+        }
         "audit" => {
             #[cfg(adf_obdd_verif)]
             {
